@@ -391,6 +391,9 @@ func (e *EventSubscription) mqUnsubscribe() bool {
 
 func (e *EventSubscription) handleResetResource(t *Throttle) {
 	e.Enqueue(func() {
+		if verifhook.Enabled {
+			verifhook.Site("reset.task", "", e.ResourceName)
+		}
 		if e.base != nil && e.base.query == "" {
 			e.base.handleResetResource(t)
 		}
